@@ -174,6 +174,15 @@ def inventory():
         for fid, info in g.fns.items():
             (proved if info['mode'] == 'verify' else assumed).setdefault(info['path'], {})
             (proved if info['mode'] == 'verify' else assumed)[info['path']][u] = info['contract_sha']
+    if '--names' in sys.argv:
+        names = {}
+        for u in ALL_UNITS:
+            g = UnitGen(REPO, os.path.join(VERIF, 'units')).generate(u)
+            for fid, info in g.fns.items():
+                names[info['path']] = info['binders']
+        with open(os.path.join(VERIF, 'units', 'names.json'), 'w') as f:
+            json.dump(names, f, indent=1, sort_keys=True)
+        print('wrote the binder-name baseline for %d functions' % len(names))
     inv = dict(proved=proved, assumed=assumed, assumed_only=sorted(
         p for p in assumed if not any(sha in proved.get(p, {}).values() for sha in assumed[p].values())))
     with open(os.path.join(VERIF, 'units', 'inventory.json'), 'w') as f:
